@@ -82,8 +82,6 @@ def check(run):
             stats['stop_positions'][str(r['numIter'])] = stats['stop_positions'].get(str(r['numIter']), 0) + 1
         run.count(key=(e['sid'], e['seq']), nontrivial=e['maxIter'] > 1 or early)
     run.notes['optimizer_runs'] = stats
-    if stats['early_stop'] == 0 or stats['max_iter_reached'] == 0 or stats['diverging_step'] == 0 or stats['splits_compared'] == 0:
-        raise RuntimeError('vacuity guard: %r' % stats)
     for sid, seq, clause in rejects:
         if clause not in ('opt-report', 'opt-split', 'opt-verbose', 'opt-fresh') + ('opt-raised',):
             continue
@@ -94,6 +92,9 @@ def check(run):
                       'trace rejected at session %d event %d: clause %s | max_iter=%d tol=%r verbose=%s stop-classes=%r observed report %r | observed chi2 sequence %r reported %r' % (
                           sid, seq, clause, ev['maxIter'], det.get('tol'), ev['verbose'], ev['cls'], ev['rep'], det.get('chi2s'), det.get('report')),
                       dict(event={k: v for k, v in ev.items() if k not in ('verts', 'edges')}, detail=det, template=s.template))
+    # (the vacuity guard comes after the verdicts: a library whose every call is rejected must be reported as that, not as vacuous machinery)
+    if not run.violations and (stats['early_stop'] == 0 or stats['max_iter_reached'] == 0 or stats['diverging_step'] == 0 or stats['splits_compared'] == 0):
+        raise RuntimeError('vacuity guard: %r' % stats)
     ex = [e for e in events if e['op'] == 'OptCall'][:3]
     for e in ex:
         run.sample({k: v for k, v in e.items() if k not in ('verts', 'edges')})
